@@ -1,3 +1,4 @@
+import OtelVerif.Gen.Opaque
 /-!
 # C13 model: validation walk, reference checks, strict decode
 
@@ -239,6 +240,6 @@ def loadAll (defaults : String → Obj) (entries : List (CId × List (String × 
 def LoadSt.result (s : LoadSt) (id : CId) : Option Obj := (s.out.lookup id).bind (fun a => s.heap.lookup a)
 
 /-- what the effective configuration shows for a written secret -/
-def redactionMarker : String := "[REDACTED]"
+def redactionMarker : String := OtelVerif.Gen.Opaque.marker   -- regenerated from config/configopaque/opaque.go
 
 end OtelVerif.C13
